@@ -591,13 +591,7 @@ func c11OutputVisibility(e *Env) {
 	// process executors export the map
 	sp := e.P.Pkg("internal/dag/executor")
 	if sp != nil {
-		for _, f := range e.RepoFuncsSorted() {
-			if f.Package() != sp || f.Parent() != nil {
-				continue
-			}
-			if len(ir.CallsIn(f, func(c *ssa.CallCommon) bool { return ir.IsCallTo(c, "os/exec.CommandContext", "os/exec.Command") })) == 0 {
-				continue
-			}
+		for _, f := range e.procCtors() {
 			ok := false
 			var ctorFns []*ssa.Function
 			for _, g := range e.staticClosure(f) {
